@@ -316,7 +316,8 @@ class Extractor:
                 before = s.startswith("//@proof_before ")
                 a = shlex.split(s.split(" ", 1)[1])
                 pa = {"regex": a[0], "text": [], "before": before,
-                      "nth": int(self.parse_opts(a[1:]).get("nth", 0))}
+                      "nth": int(self.parse_opts(a[1:]).get("nth", 0)),
+                      "exact": bool(self.parse_opts(a[1:]).get("exact"))}   # exact: no statement-boundary adjustment
                 cur["proof_after"].append(pa)
                 sub = pa["text"]
             elif s.startswith("//@proof_end"):
@@ -489,6 +490,19 @@ class Extractor:
                 if len(hits) != 1:
                     raise LostAnchor("proof_after %r in fn %s matched %d lines" % (pa["regex"], name, len(hits)))
                 hit = hits[0]
+            # the anchor may sit in the middle of a multi-line statement (e.g. a condition spread over several
+            # lines): ghost lines go before the first / after the last line of that statement
+            ends = lambda kk: self.code_line(src, kk).rstrip()[-1:] in (";", "{", "}") or not self.code_line(src, kk).strip()
+            if pa.get("exact"):
+                pass
+            elif pa.get("before"):
+                while hit - 1 > open_ln and not ends(hit - 1):
+                    hit -= 1
+                while hit - 1 > open_ln and not self.code_line(src, hit - 1).strip() and not ends(hit - 2):
+                    hit -= 1   # comment lines inside the statement
+            else:
+                while hit < last and not (self.code_line(src, hit).rstrip()[-1:] in (";", "{", "}")):
+                    hit += 1
             tgt = pb_lines if pa.get("before") else pa_lines
             tgt[hit] = tgt.get(hit, []) + pa["text"]
         drop_tail = fo.get("drop_tail")
